@@ -324,7 +324,7 @@ def stage_faults(rep, props, *, label, max_nodes, d, flnames):
 
 
 # ------------------------------------------------------------------------------------------------
-PLAIN_FLAVOURS = ["str", "int", "tuple", "dataclass", "dictwrapper", "keyed", "falsy", "intnid", "fwd"]
+PLAIN_FLAVOURS = ["str", "int", "tuple", "dataclass", "dictwrapper", "keyed", "falsy", "intnid", "fwd", "unhash"]
 
 
 def run(prop: str, tier: str) -> int:
@@ -355,7 +355,7 @@ def run(prop: str, tier: str) -> int:
         stage_mc_only(rep, label="mc:plain<=5x3", consts=K(max_nodes=5, d=3, ops=["add", "move", "remove", "set_data"],
                                                             emit=False))
     # --- exhaustive transitions, executed
-    fl_q = {"C02": ["str", "keyed", "falsy", "intnid"], "C01": ["str", "keyed"], "C04": ["str", "dataclass"],
+    fl_q = {"C02": ["str", "keyed", "falsy", "intnid", "unhash"], "C01": ["str", "keyed"], "C04": ["str", "dataclass"],
             "C07": ["str", "fwd"]}.get(prop, ["str"])
     pairs = stage_exhaustive(rep, props, label="ex:plain<=3x2", consts=K(max_nodes=3, d=2, ops=focus, emit=True),
                              flnames=fl_q if quick else PLAIN_FLAVOURS, light=(fl_q if quick else PLAIN_FLAVOURS)[1:])
